@@ -156,6 +156,9 @@ def check(pid, mod, tier, seed, scratch, jobs, t0, nfiles):
             results.append(f.result())
     errors = [r["harness_error"] for r in results if "harness_error" in r]
     good = [r for r in results if "harness_error" not in r]
+    for r in good:
+        for e in r.get("errors", []):
+            errors.append("oracle raised: " + e)
 
     evals = sum(r["evals"] for r in good)
     hashes = set()
